@@ -55,14 +55,14 @@ const (
 )
 
 // shapes, simplest first. small = explored one deviation level deeper.
-var shapesQuickL2 = []string{"2,1", "1,3", "3,3", "2,4", "6,2", "1,2,3", "3,1,2", "[2,2],2", "2,[3]", "[2],[2]"}
+var shapesQuickL2 = []string{"2,1", "1,3", "3,3", "2,4", "1,2,3", "[2,2],2", "2,[3]", "[2],[2]", "1,[1,1]"}
 
 var shapesL1 = []string{
 	"1,1", "1,2", "2,1", "2,2", "1,3", "3,1", "2,3", "3,2", "3,3", "1,4", "4,1", "2,4", "4,2", "3,4", "4,3", "4,4",
 	"1,5", "5,1", "2,5", "5,2", "3,5", "5,3", "1,6", "6,1", "2,6", "6,2", "3,6", "6,3", "4,5", "5,4", "5,5", "4,6", "6,4", "5,6", "6,5", "6,6",
 	"1,1,1", "1,2,3", "3,2,1", "2,2,2", "3,1,2", "1,4,1", "4,1,4", "2,1,5", "5,1,2", "3,3,3", "2,6,1", "1,6,2", "4,2,3",
 	"1,1,1,1", "2,1,1,2", "1,3,1,3", "3,1,3,1", "2,2,2,2", "1,2,3,4", "4,3,2,1",
-	"[2]", "[3]", "[2],2", "2,[2]", "[2,2]", "[2,2],2", "2,[2,2]", "[3],[3]", "[2],[2]", "2,[3]", "[3],2", "[1,3],2", "2,[3,1]", "[[2]],2", "2,[[3]]", "[[2],2]", "[2,[2]]", "[1,1],[1,1]", "1,[4],1", "[6]", "[4,2]",
+	"[2]", "[3]", "[2],2", "2,[2]", "[2,2]", "[2,2],2", "2,[2,2]", "[3],[3]", "[2],[2]", "2,[3]", "[3],2", "[1,3],2", "2,[3,1]", "[[2]],2", "2,[[3]]", "[[2],2]", "[2,[2]]", "[1,1],[1,1]", "1,[1,1]", "1,[4],1", "[6]", "[4,2]",
 }
 
 var shapesThoroughL3 = []string{"1,2", "2,1", "2,2", "1,3", "3,3", "[3]", "[2,2]", "[2],2"}
@@ -356,6 +356,9 @@ func flowFeatures(s *shape, f *flow, H int, dev []choice, primary *mresult) []st
 		}
 		if ca.forced && ca.sides[0] != ca.sides[1] {
 			set["conflicting-sides-on-chain"] = true
+		}
+		if ca.forced && ca.inAvoid {
+			set["forced-break-inside-avoid-box"] = true
 		}
 	}
 	if f.firstSide[0] != "" {
